@@ -88,7 +88,9 @@ C_Silent == /\ \E m \in Msgs : Step(m) \/ EndDst(m) \/ PipeReject(m)
 C_Call ==
   /\ IsEv("Call")
   /\ CASE Ev.op = "TakeMsg"  -> CallTakeMsg(Ev.m, Ev.ip, Ev.src)
-       [] Ev.op = "TakeDest" -> CallTakeDest(Ev.m, Ev.d)
+       [] Ev.op = "TakeDest" -> IF "reqtls" \in DOMAIN Ev /\ Ev.reqtls
+                                THEN CallTakeDestRefused(Ev.m, Ev.d)
+                                ELSE CallTakeDest(Ev.m, Ev.d)
        [] Ev.op = "RelDest"  -> CallRelDest(Ev.m, Ev.d)
        \* the key a session releases under is not visible from outside: the one it took, or
        \* (deviation ReleaseOtherKey = finding F5: immediate-reject mode only, where Mail
